@@ -384,6 +384,18 @@ class Check:
         env["VERIF_TIER"] = self.tier
         env.setdefault("NUMBA_DISABLE_JIT", "0")
         payload = json.dumps({"mode": mode, "clause": clause, "inputs": inputs, "tier": self.tier, "seed": self.seed})
+        # the native scripts are deterministic for a given (mode, clause, inputs, tier, seed): within one run the same request is
+        # evaluated once (a change that fails many obligations of one clause would otherwise re-run the family once per obligation)
+        memo = self.__dict__.setdefault("_native_memo", {})
+        mkey = (owner, payload)
+        if mkey in memo:
+            return dict(memo[mkey])
+        res = self._native_run(script, payload, env, timeout, clause, owner)
+        if res.get("status") != "error":
+            memo[mkey] = dict(res)
+        return res
+
+    def _native_run(self, script, payload, env, timeout, clause, owner):
         try:
             p = subprocess.run([NATIVE_PY, "-W", "ignore", script], input=payload, capture_output=True, text=True, timeout=timeout,
                                env=env, cwd=VERIF)
